@@ -311,6 +311,24 @@ Arguments left_only {V}. Arguments right_only {V}.
 Arguments fmap {V}. Arguments omap {V}. Arguments col {V}. Arguments table {V}.
 Arguments r_named {V}. Arguments r_coded {V}. Arguments r_result {V}. Arguments r_levels {V}. Arguments r_final {V}.
 
+(* ------------------------------------------------------------------ Broadcaster.broadcast: which path an object takes *)
+
+Inductive okind := KSeries | KFrame.
+
+(* `if self._obj.index.names == [None] and isinstance(self._obj, pd.Series)`: only a Series with exactly ONE index
+   level, which is unnamed, is a set of parameters: its keys become columns, i.e. for the join it is a frame without
+   levels holding one row (the whole Series).  Every other object -- a DataFrame, a Series with several levels even if
+   all of them are unnamed, a Series whose level has a name however that name looks ('' and 0 are names, [Some _]) --
+   is row-indexed and goes through [bcast_impl] as it is. *)
+Definition is_paramset (k : okind) (l : list (option nat)) : bool :=
+  match k, l with KSeries, [None] => true | _, _ => false end.
+
+Definition as_joined {V} (k : okind) (whole : V) (o : uframe V) : uframe V :=
+  if is_paramset k (ulv o) then UFrame [] [([], whole)] else o.
+
+Definition broadcast_top {V} (k : okind) (whole : V) (s : state V) : run V :=
+  bcast_impl (State (as_joined k whole (st_obj s)) (st_prm s)).
+
 (* ------------------------------------------------------------------ executable comparison (correspondence) *)
 
 Definition optZ_eqb (a b : option Z) : bool :=
@@ -353,6 +371,12 @@ Definition check_case (lo : list (option nat)) (ko : list key) (lp : list (optio
                   && onames_eqb (ulv (st_prm f)) lp && keys_eqb (map fst (urows (st_prm f))) kp
       | None => match exp with Raise => true | _ => false end
       end).
+
+(* the same with the dispatch of Broadcaster.broadcast in front: [k], [lo], [ko] describe the object as it is passed *)
+Definition check_case_top (k : okind) (lo : list (option nat)) (ko : list key) (lp : list (option nat)) (kp : list key)
+           (exp_levels : list (option nat)) (exp : outcome Z) : bool :=
+  let o := as_joined k 0 (UFrame lo (number ko)) in
+  check_case (ulv o) (map fst (urows o)) lp kp exp_levels exp.
 
 Definition check_array (lo : list (option nat)) (ko : list key) (n : nat) (exp : option (list (arow Z))) : bool :=
   let '(nlo, _) := name_levels 0 lo in
